@@ -77,6 +77,20 @@ def run(ctx):
         pre = [(' | '.join(rnd.sample(V4, rnd.choice([2, 3, 4]))), rnd.sample(V4, 4))] if rnd.random() < 0.7 else []
         cases.append({'op': 'build', 'notation': rnd.choice(['expr', 'lambda']), 'order': order, 'e': e, 'style': 'sym', 'pre': pre})
     events = bddfam.run_bool_events(ctx, cases)
+    # the same operations in fresh interpreters whose terminal nodes are first created from ints / by nodes()
+    sub = [dict(c) for c in rnd.sample([c for c in cases if c['op'] in ('binop', 'not', 'restrict')], 600 if q else 12000)]
+    fev = []
+    for pre in ('int-terminals', 'nodes-first'):
+        fev += bddfam.run_fresh(ctx, pre, 'bool-event', sub[:len(sub) // 2] if pre == 'int-terminals' else sub[len(sub) // 2:])
+    for i, e in enumerate(fev):
+        e['tid'] = i
+    ctx.evaluations += len(fev)
+    verdicts = ctx.validate('TraceBool.tla', 'Trace.cfg', fev)
+    for tid, v in sorted(verdicts.items()):
+        ev = fev[tid]
+        ctx.violation('fresh interpreter: %s: %s; %s' % (ev['op'], v['v'], json.dumps({k: ev[k] for k in ev if k != 'tid'})[:600]),
+                      {'case': {k: ev[k] for k in ev if k in ('op', 'order', 'e1', 'e2', 'bop', 'v', 'b', 'style')}, 'event': ev, 'verdict': v})
+    ctx.note('fresh_interpreter_events', len(fev))
     for e in events:
         o = e.get('out', {})
         if 'tree' in o and o['tree'][0] != 't':
